@@ -155,7 +155,7 @@ class ModeSense10(SCSICommand):
             result += _d
             result += _mpd
 
-        result[0] = len(result) - 1
+        result[0:2] = scsi_int_to_ba(len(result) - 2, 2)
         return result
 
 
